@@ -141,3 +141,158 @@ def replay(ctx, rep):   # noqa: F811
         from harness import common
         return common.scenario_replay(ctx, rep, {'load': load_scenarios})
     return _replay_k(ctx, rep)
+
+
+# ---------------------------------------------------------------------------
+# opposite ends living in two resources: after a load (either file first) one end may hold its partner through a
+# resolved proxy; every mutation on either end keeps the ends symmetric all the same  (implementation only)
+
+def cross_resource_scenarios(ctx, out):
+    import os
+    import tempfile
+    from harness import common
+    common.use_repo()
+    from pyecore.ecore import EClass, EAttribute, EReference, EString, EPackage, EProxy
+    from pyecore.resources import ResourceSet, URI
+    from pyecore.resources.json import JsonResource
+    rng = common.rng_for(ctx.seed, 'C01:cross')
+    n = 30 if ctx.tier != 'thorough' else 500
+    cnt = ops = 0
+    for it in range(n):
+        fmt = 'xmi' if it % 2 == 0 else 'json'
+        pkg = EPackage('p', nsURI=f'http://verif/c01/cross/{it}', nsPrefix='p')
+        Team, Person = EClass('Team'), EClass('Person')
+        for c in (Team, Person):
+            c.eStructuralFeatures.append(EAttribute('name', EString))
+        members = EReference('members', Person, upper=-1)
+        team = EReference('team', Team, eOpposite=members)
+        fans = EReference('fans', Person, upper=-1)
+        likes = EReference('likes', Team, upper=-1, eOpposite=fans)
+        captain = EReference('captain', Person)
+        captain_of = EReference('captainOf', Team, eOpposite=captain)
+        Team.eStructuralFeatures.extend([members, fans, captain])
+        Person.eStructuralFeatures.extend([team, likes, captain_of])
+        pkg.eClassifiers.extend([Team, Person])
+        pairs = [('members', True, 'team', False), ('fans', True, 'likes', True), ('captain', False, 'captainOf', False)]
+
+        def new_rset():
+            rs = ResourceSet()
+            rs.metamodel_registry[pkg.nsURI] = pkg
+            rs.resource_factory['json'] = lambda uri: JsonResource(uri)
+            return rs
+        with tempfile.TemporaryDirectory() as tmp:
+            pt, pp = os.path.join(tmp, f'teams.{fmt}'), os.path.join(tmp, f'people.{fmt}')
+            rs = new_rset()
+            rt, rp = rs.create_resource(URI(pt)), rs.create_resource(URI(pp))
+            teams = [Team(name=f't{i}') for i in range(2)]
+            people = [Person(name=f'p{i}') for i in range(rng.randrange(2, 5))]
+            for t in teams:
+                rt.append(t)
+            for p in people:
+                rp.append(p)
+            for p in people:
+                if rng.random() < 0.8:
+                    p.team = rng.choice(teams)
+                for t in teams:
+                    if rng.random() < 0.4:
+                        p.likes.append(t)
+            for t in teams:
+                free = [p for p in people if p.captainOf is None]
+                if free and rng.random() < 0.7:
+                    t.captain = rng.choice(free)
+            first = rng.choice(['teams', 'people'])
+            hist = {'format': fmt, 'first': first, 'people': len(people), 'ops': []}
+            case = {'scenario': 'cross', 'seed': ctx.seed, 'tier': ctx.tier, 'history': hist}
+            try:
+                rt.save()
+                rp.save()
+                rs2 = new_rset()
+                la = rs2.get_resource(URI(pt if first == 'teams' else pp))
+                lb = rs2.get_resource(URI(pp if first == 'teams' else pt))
+                lt = list((la if first == 'teams' else lb).contents)
+                lp = list((lb if first == 'teams' else la).contents)
+            except Exception as e:  # noqa  (C08/C09/C14's subject)
+                out.notes.append(f'C01 cross scenario skipped: {type(e).__name__}: {e}'[:160])
+                continue
+            cnt += 1
+
+            def un(v):
+                return v.force_resolve() if isinstance(v, EProxy) else v
+
+            def vals(o, f, many):
+                v = o.eGet(f)
+                return [un(x) for x in v] if many else ([] if v is None else [un(v)])
+
+            def asym():
+                for f, m1, g, m2 in pairs:
+                    for t in lt:
+                        for p in lp:
+                            a, b = any(x is p for x in vals(t, f, m1)), any(x is t for x in vals(p, g, m2))
+                            if a != b:
+                                return f'{p.name} in {t.name}.{f} is {a} but {t.name} in {p.name}.{g} is {b}'
+                return None
+            bad = asym()
+            if bad:
+                out.fail({'property': 'C01', 'clause': 'asymmetric-after-cross-resource-load', 'format': fmt}, bad, case)
+                continue
+            for step in range(rng.randrange(2, 7)):
+                f, m1, g, m2 = rng.choice(pairs)
+                t, p = rng.choice(lt), rng.choice(lp)
+                side = rng.choice(['team-end', 'person-end'])
+                o, feat, many, other = (t, f, m1, p) if side == 'team-end' else (p, g, m2, t)
+                k = rng.choice(['remove', 'pop', 'clear', 'append', 'del']) if many else rng.choice(['set', 'unset', 'del'])
+                hist['ops'].append([side, feat, k, o.name, other.name])
+                ops += 1
+                try:
+                    coll = o.eGet(feat)
+                    if k == 'remove':
+                        held = [x for x in coll if un(x) is other]
+                        if held:
+                            coll.remove(held[0])
+                    elif k == 'pop':
+                        if len(coll):
+                            coll.pop(rng.randrange(len(coll)))
+                    elif k == 'clear':
+                        coll.clear()
+                    elif k == 'append':
+                        if not any(un(x) is other for x in coll):
+                            coll.append(other)
+                    elif k == 'set':
+                        o.eSet(feat, other)
+                    elif k == 'unset':
+                        o.eSet(feat, None)
+                    else:
+                        delattr(o, feat)
+                except (KeyError, RuntimeError):
+                    # removal of a proxy held under a stale hash in a unique collection: C14's known finding
+                    hist['ops'][-1].append('stale-hash')
+                    break
+                except Exception as e:  # noqa
+                    out.fail({'property': 'C01', 'clause': 'cross-resource-operation-raised', 'format': fmt},
+                             f'{hist["ops"][-1]} raised {type(e).__name__}: {e}', case)
+                    break
+                bad = asym()
+                if bad:
+                    out.fail({'property': 'C01', 'clause': 'asymmetric-across-resources', 'format': fmt},
+                             f'after {hist["ops"][-1]} (loaded {first} first): {bad}', case)
+                    break
+    out.coverage['cross_resource_models'] = cnt
+    out.coverage['cross_resource_operations'] = ops
+
+
+_run_k2 = run
+
+
+def run(ctx, out):   # noqa: F811
+    _run_k2(ctx, out)
+    cross_resource_scenarios(ctx, out)
+
+
+_replay_k2 = replay
+
+
+def replay(ctx, rep):   # noqa: F811
+    if rep.get('case', {}).get('scenario') == 'cross':
+        from harness import common
+        return common.scenario_replay(ctx, rep, {'cross': cross_resource_scenarios})
+    return _replay_k2(ctx, rep)
